@@ -79,6 +79,7 @@ def _merge(parts):
                 d[a] = d.get(a, 0) + b
             out[k] = d
         out["samples"] = (out["samples"] + p["samples"])[:6]
+        out["selftest"] = {k: out.get("selftest", {}).get(k, 0) + p.get("selftest", {}).get(k, 0) for k in ("ran", "passed")}
         out["violations"] = out["violations"] + p["violations"]
     out["violations"].sort(key=lambda v: (v["family"], v["universe"]["id"], v["profile"]))
     return out
@@ -156,6 +157,8 @@ def coverage_of(summary):
         "cert_exhaustive_families": (["tiny: ALL %d universes with 2 packages x 2 candidates, <= 1 requirement and <= 1 constrains entry per solvable on the other package, one root requirement" % summary["families"]["tiny"]]
                                      if summary["families"].get("tiny", 0) >= 196608 else []),
         "cert_queries_re_asked_to_cvc5": summary.get("cvc5_cross_checked", 0),
+        "cert_vacuity_guard": "tampered certificates rejected by the oracle (the root's requirement clauses removed -> `complete` must fail; a bogus unit clause against a selected solvable added -> `sound` must fail): %s of %s" % (
+            summary.get("selftest", {}).get("passed", 0), summary.get("selftest", {}).get("ran", 0)),
     }
 
 
